@@ -436,5 +436,13 @@ def generate(check, family, rootcat="top", rootmax=2, depth=3, num=2000, seed=1,
     if pick:
         import random as _r
         _r.Random(pick[1]).shuffle(behs)
-        behs = sorted(behs[:pick[0]], key=lambda b: json.dumps(b["choices"]))
+        # the selection, plus one derivation from the rest of the pool for every variant the selection does not use
+        sel, rest = behs[:pick[0]], behs[pick[0]:]
+        have = {c[0] for b in sel for c in b["choices"]}
+        for b in rest:
+            new = {c[0] for c in b["choices"]} - have
+            if new:
+                sel.append(b)
+                have |= new
+        behs = sorted(sel, key=lambda b: json.dumps(b["choices"]))
     return table, behs
